@@ -483,6 +483,13 @@ def check_refusals(case, ctx: Ctx):
     elif kind == "wrong_weights":
         ctx.refused("h1 with too many weights", physt.h1, list(vals), e, weights=[1.0] * (len(vals) + 1))
         ctx.refused("h(DataFrame) with too few weights", physt.h, pd.DataFrame({"a": vals, "b": vals}), [e, e], weights=[1.0] * (len(vals) - 1) if len(vals) > 1 else [1.0, 2.0, 3.0])
+        # weights of the right size but another shape than the (2, 3) data, with and without NaN removal
+        x23 = np.arange(6.0).reshape(2, 3) * 0.25
+        for dn in (True, False):
+            ctx.refused(f"h1((2, 3) data, (3, 2) weights, dropna={dn})", physt.h1, x23, e, weights=np.ones((3, 2)), dropna=dn)
+            ctx.refused(f"h1((2, 3) data, (6,) weights, dropna={dn})", physt.h1, x23, e, weights=np.ones(6), dropna=dn)
+            ok23 = ctx.call(f"h1((2, 3) data, (2, 3) weights, dropna={dn})", physt.h1, x23, e, weights=np.full((2, 3), 2.0), dropna=dn)
+            require(float(ok23.total) + float(ok23.underflow) + float(ok23.overflow) == 12.0, "weights_same_shape", f"total {ok23.total}")
     elif kind == "wrong_dim":
         ctx.refused("h(dim mismatch)", physt.h, np.zeros((3, 2)), [e, e, e], dim=3)
         ctx.refused("h2 accessor on a one-column frame", pd.DataFrame({"a": vals}).physt.h2)
@@ -750,3 +757,4 @@ RULE += ' Also: float32 containers against the float32 array, bin counts next to
 RULE += ' labels: pandas frames whose column labels are integers (0 included), floats or tuples - the axis names are the labels as text through Series, Series accessor, DataFrame accessor, h2 of two Series and h of the frame; non-trivial = a label that is not a string. dask: one case in four has 17-80 chunks of 1-3 values.'
 RULE += ' containers_nd: rows handed to h as an iterator, a generator of tuples or a tuple of tuples; h2 of two iterators.'
 RULE += ' containers_1d: DataFrame.physt.histogram() of a one-column frame and histogram([column]).'
+RULE += ' refusals: weights of the right size but another shape than 2-D data, with dropna on and off (weights of the same shape are accepted).'
